@@ -146,7 +146,7 @@ class Group(SharedRegistryObject):
         for group_name in group_names:
             grp = d[group_name]
 
-            if grp.is_used_group(self.name):
+            if group_name == self.name or grp.is_used_group(self.name):
                 raise ValueError(
                     "Cyclic relationship found between %s and %s"
                     % (self.name, group_name)
